@@ -572,6 +572,28 @@ def store_guard(ctx: Ctx) -> None:
             ok = ok and "[" not in unparse(it).replace("zip(region, chunks)", "")
             ok = ok and all(fcfg.all_paths_pass(fcfg.entry, s, {lp[-1]}) for s in region_sink) and bool(region_sink)
     ctx.ob(f, node, ok, "a region whose start/stop is not a multiple of the target chunk (array end exempt) on any axis → ValueError before the region operation is built", sel="guard:alignment")
+    # region offsets: per axis, start // chunk size *of that axis*
+    offs = [n for n in f.own_nodes() if isinstance(n, ast.BinOp) and isinstance(n.op, ast.FloorDiv) and ".start" in unparse(n.left)]
+    ok = bool(offs)
+    why = "no `start // chunk` offset computation found"
+    for o in offs:
+        sl_names = [x for x in ast.walk(o.left) if isinstance(x, ast.Name)]
+        dv_names = [x for x in ast.walk(o.right) if isinstance(x, ast.Name)]
+        same_gen = False
+        for a in sl_names:
+            for b in dv_names:
+                ba, bb = fl.comp_bind.get(id(a)), fl.comp_bind.get(id(b))
+                if ba is not None and bb is not None and ba[0] is bb[0]:
+                    same_gen = True  # bound by the same zip(...) generator
+        same_index = False
+        subs_l = {unparse(x.slice) for x in ast.walk(o.left) if isinstance(x, ast.Subscript)}
+        subs_r = {unparse(x.slice) for x in ast.walk(o.right) if isinstance(x, ast.Subscript)}
+        if subs_l and subs_l == subs_r:
+            same_index = True
+        if not (same_gen or same_index):
+            ok = False
+            why = f"in `{unparse(o, 50)}` the chunk size is not the one of the axis the slice belongs to (it is bound by another loop / not indexed by the axis)"
+    ctx.ob(f, offs[0] if offs else None, ok, "region block offsets are computed per axis as start // (target chunk size of the same axis)" + ("" if ok else f" — {why}"), sel="guard:offset-per-axis")
     ok = False
     for r in fcfg.stmts(ast.Raise):
         for t, pol in facts_at(fcfg, r.id):
